@@ -14,15 +14,16 @@ import (
 	"bytes"
 	"crypto/ed25519"
 	"crypto/elliptic"
-	"math/big"
 	"encoding/base64"
 	"encoding/json"
 	"errors"
 	"fmt"
+	"math/big"
 	"os"
 	"path/filepath"
 	"sort"
 	"strings"
+	"time"
 
 	"github.com/btcsuite/btcutil/base58"
 
@@ -30,7 +31,6 @@ import (
 	"github.com/hyperledger/aries-framework-go/component/models/did"
 	"github.com/hyperledger/aries-framework-go/component/storageutil/mem"
 	"github.com/hyperledger/aries-framework-go/pkg/common/log"
-	spilog "github.com/hyperledger/aries-framework-go/spi/log"
 	commonmodel "github.com/hyperledger/aries-framework-go/pkg/common/model"
 	"github.com/hyperledger/aries-framework-go/pkg/didcomm/common/model"
 	"github.com/hyperledger/aries-framework-go/pkg/didcomm/common/service"
@@ -40,6 +40,7 @@ import (
 	"github.com/hyperledger/aries-framework-go/pkg/didcomm/transport"
 	mockprovider "github.com/hyperledger/aries-framework-go/pkg/mock/provider"
 	mockvdr "github.com/hyperledger/aries-framework-go/pkg/mock/vdr"
+	spilog "github.com/hyperledger/aries-framework-go/spi/log"
 	vdrspi "github.com/hyperledger/aries-framework-go/spi/vdr"
 
 	env "verifharness/c14env"
@@ -209,7 +210,9 @@ type respRec struct {
 	theirDID string
 }
 
-func (r *recOut) Send(interface{}, string, *service.Destination) error { return errors.New("unexpected Send") }
+func (r *recOut) Send(interface{}, string, *service.Destination) error {
+	return errors.New("unexpected Send")
+}
 
 func (r *recOut) SendToDID(msg interface{}, _, theirDID string) error {
 	b, _ := json.Marshal(msg)
@@ -243,8 +246,11 @@ func (r *recOut) Forward(msg interface{}, d *service.Destination) error {
 	return nil
 }
 
+// recPickup taps the mediator's calls of the pickup service and hands them on to the REAL message pickup service
+// (when wired), whose store holds the inboxes.
 type recPickup struct {
 	held []heldRec
+	real messagepickup.ProtocolService
 }
 
 type heldRec struct {
@@ -254,20 +260,96 @@ type heldRec struct {
 
 func (r *recPickup) AddMessage(m []byte, theirDID string) error {
 	r.held = append(r.held, heldRec{append([]byte{}, m...), theirDID})
+
+	if r.real != nil {
+		return r.real.AddMessage(m, theirDID)
+	}
+
 	return nil
 }
 
+// pickRec is the outbound dispatcher of the pickup service: records the batches it sends.
+type pickRec struct {
+	sent []respRec
+}
+
+func (r *pickRec) Send(interface{}, string, *service.Destination) error {
+	return errors.New("unexpected Send")
+}
+func (r *pickRec) Forward(interface{}, *service.Destination) error {
+	return errors.New("unexpected Forward")
+}
+func (r *pickRec) SendToDID(msg interface{}, _, theirDID string) error {
+	b, _ := json.Marshal(msg)
+	m := map[string]interface{}{}
+	_ = json.Unmarshal(b, &m)
+	r.sent = append(r.sent, respRec{m, theirDID})
+
+	return nil
+}
+
+// ---- quiescence barrier for the asynchronous path: Service.HandleInbound runs the handler in a goroutine whose
+// last act is a log line "action=[processMessage]" (success or error); the harness installs the logger.
+var procDone = make(chan struct{}, 256)
+
+type barrierLogger struct{}
+
+func (barrierLogger) note(msg string, args []interface{}) {
+	if strings.Contains(msg, "action=[%s]") && len(args) > 1 {
+		if a, ok := args[1].(string); ok && a == "processMessage" {
+			select {
+			case procDone <- struct{}{}:
+			default:
+			}
+		}
+	}
+}
+func (l barrierLogger) Panicf(msg string, args ...interface{}) { panic(fmt.Sprintf(msg, args...)) }
+func (l barrierLogger) Fatalf(msg string, args ...interface{}) { panic(fmt.Sprintf(msg, args...)) }
+func (l barrierLogger) Errorf(msg string, args ...interface{}) { l.note(msg, args) }
+func (l barrierLogger) Warnf(string, ...interface{})           {}
+func (l barrierLogger) Infof(string, ...interface{})           {}
+func (l barrierLogger) Debugf(msg string, args ...interface{}) { l.note(msg, args) }
+
+type barrierProvider struct{}
+
+func (barrierProvider) GetLogger(string) spilog.Logger { return barrierLogger{} }
+
+func drainBarrier() {
+	for {
+		select {
+		case <-procDone:
+		default:
+			return
+		}
+	}
+}
+
+func awaitBarrier() bool {
+	select {
+	case <-procDone:
+		return true
+	case <-time.After(30 * time.Second):
+		return false
+	}
+}
+
 type med struct {
-	svc    *mediator.Service
-	out    *recOut
-	pick   *recPickup
-	cap    *capT
-	rec    *hx.RecProvider
-	nPut   int
-	fPut   int
-	fGet   bool
-	myDID  string
-	tracks bool
+	svc     *mediator.Service
+	out     *recOut
+	pick    *recPickup
+	cap     *capT
+	rec     *hx.RecProvider
+	nPut    int
+	fPut    int
+	fGet    bool
+	myDID   string
+	tracks  bool
+	pickSvc *messagepickup.Service
+	pickOut *pickRec
+	proto   *mem.Provider
+	party   int
+	fRes    bool
 }
 
 func (p *pool) newMed(party int, realDispatcher bool) *med {
@@ -310,9 +392,33 @@ func (p *pool) newMed(party int, realDispatcher bool) *med {
 		m.out.real = o
 	}
 
+	m.party, m.proto, m.pickOut = party, mem.NewProvider(), &pickRec{}
+	m.start(p)
+
+	return m
+}
+
+// start creates the service instances (mediator + real message pickup) over the med's stores: called once, and again
+// for a restart of the mediator process (routes and inboxes persist in the stores).
+func (m *med) start(p *pool) {
+	ps, err := messagepickup.New(&mockprovider.Provider{StorageProviderValue: m.rec, ProtocolStateStorageProviderValue: m.proto,
+		OutboundDispatcherValue: m.pickOut})
+	if err != nil {
+		panic(err)
+	}
+
+	m.pickSvc, m.pick.real = ps, ps
+	vdr := &mockvdr.MockVDRegistry{ResolveFunc: func(id string, o ...vdrspi.DIDMethodOption) (*did.DocResolution, error) {
+		if m.fRes {
+			return nil, errors.New("verif: injected DID resolution failure")
+		}
+
+		return p.resolve(id, o...)
+	}}
+
 	svc, err := mediator.New(&mockprovider.Provider{
-		StorageProviderValue: m.rec, ProtocolStateStorageProviderValue: mem.NewProvider(),
-		OutboundDispatcherValue: m.out, VDRegistryValue: p.vdr, KMSValue: p.w.Parties[party].KMS,
+		StorageProviderValue: m.rec, ProtocolStateStorageProviderValue: m.proto,
+		OutboundDispatcherValue: m.out, VDRegistryValue: vdr, KMSValue: p.w.Parties[m.party].KMS,
 		ServiceMap:             map[string]interface{}{messagepickup.MessagePickup: m.pick},
 		MediaTypeProfilesValue: []string{transport.MediaTypeDIDCommV2Profile},
 	})
@@ -321,8 +427,6 @@ func (p *pool) newMed(party int, realDispatcher bool) *med {
 	}
 
 	m.svc = svc
-
-	return m
 }
 
 func msgMap(v interface{}) service.DIDCommMsgMap {
@@ -920,6 +1024,15 @@ func (p *pool) hopLeak(c WrapCase, depth int, plain, pay []byte) string {
 	return ""
 }
 
+func nzs(ns []int) []int {
+	out := make([]int, len(ns))
+	for i, n := range ns {
+		out[i] = nz(n)
+	}
+
+	return out
+}
+
 func nz(n int) int {
 	if n < 0 {
 		return 999999
@@ -1186,7 +1299,10 @@ type RouteOp struct {
 	To     int      `json:"to,omitempty"`
 	Msg    int      `json:"msg,omitempty"`
 	FGet   bool     `json:"fget,omitempty"`
-	Form   string   `json:"form,omitempty"` // object | string
+	Form   string   `json:"form,omitempty"`  // object | string
+	FRes   bool     `json:"fres,omitempty"`  // the registrant's DID does not resolve
+	N      int      `json:"n,omitempty"`     // pickup: batch size
+	Async  bool     `json:"async,omitempty"` // through Service.HandleInbound (handler goroutine) instead of the sync entry
 }
 
 // key strings of the route cases, with the notation each is in the model (rkey).  Related keys on purpose: the same 32
@@ -1257,6 +1373,7 @@ type routeOut struct {
 	Entries [][3]int `json:"entries,omitempty"` // key, action, result (0 success 1 server_error)
 	Sent    bool     `json:"sent,omitempty"`
 	Note    string   `json:"note,omitempty"`
+	Msgs    []int    `json:"msgs,omitempty"`
 }
 
 func routeMsgBytes(id int, form string) (interface{}, []byte) {
@@ -1314,7 +1431,8 @@ func (p *pool) runRoute(kind string, ops []RouteOp, tr *hx.Trace) {
 		oracle  = "ok"
 		sig     string
 		details []string
-		reg     = map[int]int{} // key -> client, maintained from the observed responses (direct oracle)
+		reg     = map[int]int{}   // key -> client, maintained from the observed responses (direct oracle)
+		heldFor = map[int][]int{} // client -> messages observed as held for it and not yet picked up
 		nFwd    int
 	)
 
@@ -1330,8 +1448,9 @@ func (p *pool) runRoute(kind string, ops []RouteOp, tr *hx.Trace) {
 
 	for i, op := range ops {
 		m.out.forwards, m.out.responses, m.pick.held = nil, nil, nil
-		m.nPut, m.fPut, m.fGet = 0, -1, false
+		m.nPut, m.fPut, m.fGet, m.fRes = 0, -1, false, false
 		m.out.failSend = !op.SendOK
+		m.pickOut.sent = nil
 
 		var o routeOut
 
@@ -1352,8 +1471,18 @@ func (p *pool) runRoute(kind string, ops []RouteOp, tr *hx.Trace) {
 					ups = append(ups, map[string]string{"recipient_key": routeKeys[u[1]-1], "action": actionNames[u[0]]})
 				}
 
-				_ = m.svc.VerifHandleKeylistUpdate(msgMap(map[string]interface{}{"@id": fmt.Sprintf("u%d", i),
-					"@type": mediator.KeylistUpdateMsgType, "updates": ups}), m.myDID, fmt.Sprintf("did:example:client%d", op.Client))
+				um := msgMap(map[string]interface{}{"@id": fmt.Sprintf("u%d", i),
+					"@type": mediator.KeylistUpdateMsgType, "updates": ups})
+
+				if op.Async {
+					drainBarrier()
+
+					if _, e := m.svc.HandleInbound(um, service.NewDIDCommContext(m.myDID, fmt.Sprintf("did:example:client%d", op.Client), nil)); e != nil || !awaitBarrier() {
+						fail("async-stuck", fmt.Sprintf("op %d: HandleInbound(keylist-update): %v / handler did not finish", i, e))
+					}
+				} else {
+					_ = m.svc.VerifHandleKeylistUpdate(um, m.myDID, fmt.Sprintf("did:example:client%d", op.Client))
+				}
 
 				if len(m.out.responses) != 1 || len(m.out.forwards) != 0 || len(m.pick.held) != 0 {
 					o = routeOut{Kind: "multi", Note: fmt.Sprintf("%d responses %d forwards %d held", len(m.out.responses),
@@ -1399,8 +1528,21 @@ func (p *pool) runRoute(kind string, ops []RouteOp, tr *hx.Trace) {
 				m.fGet = op.FGet
 				body, raw := routeMsgBytes(op.Msg, op.Form)
 
-				err := m.svc.VerifHandleForward(msgMap(map[string]interface{}{"@id": fmt.Sprintf("f%d", i),
-					"@type": service.ForwardMsgType, "to": routeKeys[op.To-1], "msg": body}))
+				m.fRes = op.FRes
+				fm := msgMap(map[string]interface{}{"@id": fmt.Sprintf("f%d", i),
+					"@type": service.ForwardMsgType, "to": routeKeys[op.To-1], "msg": body})
+
+				var err error
+
+				if op.Async {
+					drainBarrier()
+
+					if _, e := m.svc.HandleInbound(fm, service.NewDIDCommContext(m.myDID, "did:example:unknownsender", nil)); e != nil || !awaitBarrier() {
+						fail("async-stuck", fmt.Sprintf("op %d: HandleInbound(forward): %v / handler did not finish", i, e))
+					}
+				} else {
+					err = m.svc.VerifHandleForward(fm)
+				}
 
 				type dl struct{ client, msg int }
 
@@ -1433,8 +1575,12 @@ func (p *pool) runRoute(kind string, ops []RouteOp, tr *hx.Trace) {
 
 				// direct oracle: exactly the registrant, exactly this message, nobody else
 				want, has := reg[op.To]
-				if op.FGet {
+				if op.FGet || op.FRes {
 					has = false
+				}
+
+				if o.Kind == "held" {
+					heldFor[o.Client] = append(heldFor[o.Client], o.Msg)
 				}
 
 				switch {
@@ -1449,6 +1595,60 @@ func (p *pool) runRoute(kind string, ops []RouteOp, tr *hx.Trace) {
 						fail("offered-to-other", fmt.Sprintf("op %d: forward offered to the destination of client %d", i, f.client))
 					}
 				}
+			case "restart":
+				m.start(p)
+				o = routeOut{Kind: "xrestarted"}
+			case "pickup":
+				_ = m.pickSvc.VerifHandleSync(msgMap(map[string]interface{}{"@id": fmt.Sprintf("p%d", i),
+					"@type": messagepickup.BatchPickupMsgType, "batch_size": op.N, "~thread": map[string]interface{}{"thid": "t"}}),
+					m.myDID, fmt.Sprintf("did:example:client%d", op.Client))
+
+				if len(m.out.forwards) != 0 || len(m.out.responses) != 0 || len(m.pickOut.sent) > 1 {
+					o = routeOut{Kind: "multi", Note: "pickup had other effects"}
+					fail("pickup-effects", fmt.Sprintf("op %d: %d forwards %d responses %d batches", i, len(m.out.forwards),
+						len(m.out.responses), len(m.pickOut.sent)))
+
+					return
+				}
+
+				if len(m.pickOut.sent) == 0 {
+					o = routeOut{Kind: "noinbox", Client: op.Client}
+
+					if len(heldFor[op.Client]) > 0 {
+						fail("held-lost", fmt.Sprintf("op %d: client %d has held messages %v but got no batch", i, op.Client, heldFor[op.Client]))
+					}
+
+					return
+				}
+
+				bt := m.pickOut.sent[0]
+				o = routeOut{Kind: "batch", Client: clientOfDID(bt.theirDID), Msgs: []int{}}
+
+				att, _ := bt.msg["messages~attach"].([]interface{})
+				for _, a := range att {
+					am, _ := a.(map[string]interface{})
+					b64, _ := am["msg"].(string)
+					raw, _ := base64.StdEncoding.DecodeString(b64)
+					o.Msgs = append(o.Msgs, routeMsgID(raw))
+				}
+
+				// direct oracle: the batch goes to the requesting client and is the head of what was held for it
+				k := op.N
+				if k > len(heldFor[op.Client]) {
+					k = len(heldFor[op.Client])
+				}
+
+				if k < 0 {
+					k = 0
+				}
+
+				wantMs := heldFor[op.Client][:k]
+				if o.Client != op.Client || fmt.Sprint(o.Msgs) != fmt.Sprint(append([]int{}, wantMs...)) {
+					fail("pickup-foreign", fmt.Sprintf("op %d: client %d asked for %d and the batch %v went to client %d; held for it: %v",
+						i, op.Client, op.N, o.Msgs, o.Client, heldFor[op.Client]))
+				}
+
+				heldFor[op.Client] = heldFor[op.Client][k:]
 			}
 		}()
 
@@ -1471,8 +1671,18 @@ func (p *pool) runRoute(kind string, ops []RouteOp, tr *hx.Trace) {
 			}
 
 			cops = append(cops, fmt.Sprintf("RUpdate %d %s %s %s", op.Client, hx.CoqList(ups), f, hx.CoqBool(op.SendOK)))
+		case "pickup":
+			n := op.N
+			if n < 0 {
+				n = 0
+			}
+
+			cops = append(cops, fmt.Sprintf("RPickup %d %d%%nat", op.Client, n))
+		case "restart":
+			cops = append(cops, "RRestart")
 		default:
-			cops = append(cops, fmt.Sprintf("RForward %s %d %s %s", coqRKey(op.To), op.Msg, hx.CoqBool(op.SendOK), hx.CoqBool(op.FGet)))
+			cops = append(cops, fmt.Sprintf("RForward %s %d %s %s %s", coqRKey(op.To), op.Msg, hx.CoqBool(op.SendOK),
+				hx.CoqBool(op.FGet), hx.CoqBool(op.FRes)))
 		}
 
 		o := outs[i]
@@ -1492,6 +1702,12 @@ func (p *pool) runRoute(kind string, ops []RouteOp, tr *hx.Trace) {
 			couts = append(couts, fmt.Sprintf("OHeld %d %d", nz(o.Client), nz(o.Msg)))
 		case "drop":
 			couts = append(couts, "ODrop")
+		case "batch":
+			couts = append(couts, fmt.Sprintf("OBatch %d %s", nz(o.Client), hx.CoqNList(nzs(o.Msgs))))
+		case "noinbox":
+			couts = append(couts, fmt.Sprintf("ONoInbox %d", nz(o.Client)))
+		case "xrestarted":
+			couts = append(couts, "ORestarted")
 		default:
 			couts = append(couts, "ORelay 999999 999999") // several effects / panic: never what the model predicts
 		}
@@ -1587,7 +1803,21 @@ func (p *pool) randWrap(r *hx.Rng, viaMed bool) WrapCase {
 func randRoute(r *hx.Rng, n int) []RouteOp {
 	var ops []RouteOp
 
-	nk := 2 + r.Intn(len(routeKeys)-1)
+	// a working set of 2..4 key strings of the alphabet per history (so that registrations and forwards meet), half of
+	// the time starting at a related group (keys 1..5: same bytes / same X)
+	nk := 2 + r.Intn(3)
+	set := make([]int, 0, nk)
+	start := r.Intn(len(routeKeys))
+
+	if r.Bool() {
+		start = r.Intn(4)
+	}
+
+	for j := 0; j < nk; j++ {
+		set = append(set, 1+(start+j*(1+r.Intn(2)))%len(routeKeys))
+	}
+
+	pickKey := func() int { return set[r.Intn(len(set))] }
 
 	for i := 0; i < n; i++ {
 		if r.Intn(5) < 2 {
@@ -1602,17 +1832,48 @@ func randRoute(r *hx.Rng, n int) []RouteOp {
 					a = 2
 				}
 
-				op.Ups = append(op.Ups, [2]int{a, 1 + r.Intn(nk)})
+				op.Ups = append(op.Ups, [2]int{a, pickKey()})
 			}
 
 			if r.Intn(6) == 0 {
 				op.FPut = r.Intn(nu)
 			}
 
+			op.Async = r.Intn(4) == 0
+
 			ops = append(ops, op)
+		} else if x := r.Intn(12); x == 0 {
+			ops = append(ops, RouteOp{Op: "restart", FPut: -1, SendOK: true})
+		} else if x <= 3 {
+			cl := routeClients[r.Intn(len(routeClients))]
+
+			if r.Intn(4) != 0 { // mostly the client something was probably held for (the others must get nothing)
+			search:
+				for j := len(ops) - 1; j >= 0; j-- {
+					if ops[j].Op != "forward" || ops[j].SendOK || r.Intn(4) == 0 {
+						continue
+					}
+
+					for i2 := j - 1; i2 >= 0; i2-- {
+						if ops[i2].Op != "update" {
+							continue
+						}
+
+						for _, u := range ops[i2].Ups {
+							if u[0] == 0 && u[1] == ops[j].To {
+								cl = ops[i2].Client
+								break search
+							}
+						}
+					}
+				}
+			}
+
+			ops = append(ops, RouteOp{Op: "pickup", Client: cl, N: []int{0, 1, 2, 10}[r.Intn(4)], FPut: -1, SendOK: true})
 		} else {
-			ops = append(ops, RouteOp{Op: "forward", To: 1 + r.Intn(nk), Msg: 1 + r.Intn(50), SendOK: r.Intn(3) != 0,
-				FGet: r.Intn(12) == 0, FPut: -1, Form: []string{"object", "string"}[r.Intn(2)]})
+			ops = append(ops, RouteOp{Op: "forward", To: pickKey(), Msg: 1 + r.Intn(50), SendOK: r.Intn(2) != 0,
+				FGet: r.Intn(12) == 0, FRes: r.Intn(12) == 0, FPut: -1, Form: []string{"object", "string"}[r.Intn(2)],
+				Async: r.Intn(4) == 0})
 		}
 	}
 
@@ -1635,7 +1896,10 @@ func enumRoutes(n int, f func([]RouteOp)) {
 		RouteOp{Op: "update", Client: 2, Ups: [][2]int{{1, 1}}, FPut: -1, SendOK: false},
 		RouteOp{Op: "forward", To: 1, Msg: 7, SendOK: true, FPut: -1, Form: "object"},
 		RouteOp{Op: "forward", To: 1, Msg: 8, SendOK: false, FPut: -1, Form: "string"},
-		RouteOp{Op: "forward", To: 2, Msg: 9, SendOK: true, FPut: -1, Form: "string"})
+		RouteOp{Op: "forward", To: 2, Msg: 9, SendOK: false, FPut: -1, Form: "string", Async: true},
+		RouteOp{Op: "pickup", Client: 1, N: 1, FPut: -1, SendOK: true},
+		RouteOp{Op: "pickup", Client: 2, N: 10, FPut: -1, SendOK: true},
+		RouteOp{Op: "restart", FPut: -1, SendOK: true})
 
 	var rec func(prefix []RouteOp)
 	rec = func(prefix []RouteOp) {
@@ -1754,7 +2018,9 @@ func main() {
 		root = filepath.Dir(filepath.Dir(filepath.Dir(exe)))
 	}
 
+	log.Initialize(barrierProvider{})
 	log.SetLevel("", spilog.CRITICAL)
+	log.SetLevel("aries-framework/route/service", spilog.DEBUG)
 
 	p := newPool()
 
@@ -1780,7 +2046,7 @@ func main() {
 	corpus(p, dir, tr)
 
 	rng := hx.NewRng(args.Seed)
-	nWrap, nWrapMed, nRoute, depth, nSeq := 330, 200, 1300, 3, 70
+	nWrap, nWrapMed, nRoute, depth, nSeq := 330, 200, 900, 3, 70
 
 	if args.Tier == "thorough" {
 		nWrap, nWrapMed, nRoute, depth, nSeq = 4000, 2000, 30000, 4, 1200
